@@ -148,6 +148,11 @@ func (c *call) HasUndefined() bool {
 				return true
 			}
 		}
+		if tuple, ok := c.Args[i].(*types.Tuple); ok && tuple.Len() == 0 {
+			// the argument is a call to a function without results,
+			// for example a function in a previously generated file that was only partly written.
+			return true
+		}
 		if strings.Index(c.Args[i].String(), "invalid type") >= 0 {
 			return true
 		}
